@@ -140,6 +140,8 @@ class ExprMixin:
   GLOBAL_SINGLETONS = {
       'NO_VALUE': NO_VALUE, 'VARARGS': VARARGS, '_UNSET_SENTINEL': UNSET_SENTINEL,
       'tagged_value_fn': TAGGED_VALUE_FN,
+      '_tracking_state': TRACKING_STATE, '_set_counter': SET_COUNTER, '_state': BUILD_STATE,
+      'DELETED': DELETED,
   }
   MODULES = {'daglish', 'history', 'signatures', 'copy', 'collections', 'dataclasses',
              'functools', 'inspect', 'tag_type', 'config', 'config_lib', 'logging',
@@ -828,12 +830,12 @@ class ExprMixin:
     h = st.heap
     r = ref(it)
     c = h.cls(r)
-    if not self.feasible(st, z3.Not(z3.And(is_VRef(it), z3.Or(cls_in(c, 'list'), cls_in(c, 'tuple'))))):
+    if not self.feasible_full(st, z3.Not(z3.And(is_VRef(it), z3.Or(cls_in(c, 'list'), cls_in(c, 'tuple'))))):
       length, arr = h.len(r), h.eltarr(r)
       v = SeqView(length, lambda i: arr[i], src=r)
       v.src_arrays = ('llen', 'lelt')
       return v
-    if not self.feasible(st, z3.Not(z3.And(is_VRef(it), z3.Or([cls_in(c, n) for n in DICTLIKE])))):
+    if not self.feasible_full(st, z3.Not(z3.And(is_VRef(it), z3.Or([cls_in(c, n) for n in DICTLIKE])))):
       return self.dict_keys_view(r, st)
     self.unsupp('iteration over a value of unknown class', node)
 
